@@ -238,10 +238,10 @@ Definition step (p : parser) (o : op) : parser * answer :=
   | OTargetCount => target_count p
   end.
 
-Fixpoint run (p : parser) (ops : list op) : list answer :=
+Fixpoint run_ops (p : parser) (ops : list op) : list answer :=
   match ops with
   | [] => []
-  | o :: ops' => let '(p', a) := step p o in a :: run p' ops'
+  | o :: ops' => let '(p', a) := step p o in a :: run_ops p' ops'
   end.
 
 (* getTargetCount is the one observation that tells a pending alias from a loaded one; it is erased when
@@ -346,9 +346,9 @@ Definition run_C03 (mode : Z) (v : Val) : Val :=
          let k := Z.to_nat (getZ (nthV 1 v)) in
          let ops := map dec_op (getL (nthV 2 v)) in
          if getB (nthV 3 v)
-         then VL (map enc_answer (run (lazy_init k lines) ops))
+         then VL (map enc_answer (run_ops (lazy_init k lines) ops))
          else match eager_init k lines with
-              | Some p => VL (map enc_answer (run p ops))
+              | Some p => VL (map enc_answer (run_ops p ops))
               | None => VL [VZ (-1)]
               end
   | _ => bad
